@@ -786,9 +786,59 @@ def rule_modf(prog, rep, tier, workers=("conformance._conform_filename", "sync_p
         raise AnalysisError("MOD-F: only %d write sites examined on the read->write path" % n)
 
 
+def _relisting_param(t):
+    """index of the parameter whose elements, all of them and in order, the helper hands back in a new list:
+    `out = []; for [i,] e in [enumerate](param[, k]): ...; out.append(e)` (unconditionally) `; return out`"""
+    body = [s_ for s_ in t.node.body if not (isinstance(s_, ast.Expr) and isinstance(s_.value, ast.Constant))]
+    rets = [r for r in ast.walk(t.node) if isinstance(r, ast.Return)]
+    if len(rets) != 1 or not isinstance(rets[0].value, ast.Name) or rets[0] is not body[-1]:
+        return None
+    out = rets[0].value.id
+    inits = [s_ for s_ in body if isinstance(s_, ast.Assign) and any(isinstance(x, ast.Name) and x.id == out for x in s_.targets)]
+    if len(inits) != 1 or not (isinstance(inits[0].value, ast.List) and not inits[0].value.elts):
+        return None
+    loops = [s_ for s_ in body if isinstance(s_, ast.For)]
+    if len(loops) != 1 or loops[0].orelse:
+        return None
+    lp = loops[0]
+    it = lp.iter
+    elem = lp.target
+    if isinstance(it, ast.Call) and isinstance(it.func, ast.Name) and it.func.id == "enumerate" and it.args and isinstance(lp.target, ast.Tuple) and len(lp.target.elts) == 2:
+        it, elem = it.args[0], lp.target.elts[1]
+    pn = t.params()
+    if not (isinstance(it, ast.Name) and it.id in pn and isinstance(elem, ast.Name)):
+        return None
+    if any(isinstance(x, (ast.Break, ast.Continue, ast.Return)) for x in ast.walk(lp)):
+        return None
+    appends = [s_ for s_ in lp.body if isinstance(s_, ast.Expr) and isinstance(s_.value, ast.Call) and isinstance(s_.value.func, ast.Attribute) and s_.value.func.attr == "append"
+               and isinstance(s_.value.func.value, ast.Name) and s_.value.func.value.id == out and len(s_.value.args) == 1
+               and isinstance(s_.value.args[0], ast.Name) and s_.value.args[0].id == elem.id]
+    other = [x for x in ast.walk(lp) if isinstance(x, ast.Call) and isinstance(x.func, ast.Attribute) and isinstance(x.func.value, ast.Name) and x.func.value.id == out]
+    if len(appends) != 1 or len(other) != 1:
+        return None
+    if any(isinstance(x, ast.Name) and x.id == elem.id and isinstance(x.ctx, ast.Store) for s_ in lp.body for x in ast.walk(s_)):
+        return None
+    return pn.index(it.id)
+
+
 def _is_identity_relist(prog, fi, target, value):
-    """value == list(map(F, enumerate(<same attribute>, ...))) with F returning element[1] of its argument"""
+    """value == list(map(F, enumerate(<same attribute>, ...))) with F returning element[1] of its argument, or a helper
+    that hands back all elements of that attribute in a new list"""
     v = value
+    want = dump(ast.Attribute(value=target.value, attr=target.attr, ctx=ast.Load()))
+    if isinstance(v, ast.Call) and isinstance(v.func, (ast.Name, ast.Attribute)):
+        for t in prog.resolve_expr_fn(v.func, v):
+            if isinstance(t, FunctionInfo) and isinstance(t.node, ast.FunctionDef):
+                idx = _relisting_param(t)
+                if idx is not None:
+                    pn = t.params()
+                    a = v.args[idx] if idx < len(v.args) else next((k.value for k in v.keywords if k.arg == pn[idx]), None)
+                    if isinstance(a, ast.Name):
+                        defs = [s2 for s2 in ast.walk(fi.node) if isinstance(s2, ast.Assign) and any(isinstance(t2, ast.Name) and t2.id == a.id for t2 in s2.targets)]
+                        if len(defs) == 1:
+                            a = defs[0].value
+                    if a is not None and dump(a) == want:
+                        return True
     if isinstance(v, ast.Call) and isinstance(v.func, ast.Name) and v.func.id == "list" and v.args:
         v = v.args[0]
     if isinstance(v, (ast.ListComp, ast.GeneratorExp)) and len(v.generators) == 1 and not v.generators[0].ifs and isinstance(v.elt, ast.Call) \
